@@ -459,7 +459,9 @@ def _call_range(rng):
 
 
 def _pool_map(fn, items, nproc):
-    """Map over items in forked workers; inputs are inherited through fork (no pickling)."""
+    """Map over items in forked workers; inputs are inherited through fork (no pickling).
+    A worker that dies (OOM kill, segfault) breaks the pool and is reported as a machinery
+    failure instead of hanging the check."""
     global _REPLAYER, _ITEMS
     lim = tlc.dev_limits()
     if lim:
@@ -471,9 +473,13 @@ def _pool_map(fn, items, nproc):
     n = len(items)
     per = max(1, n // (nproc * 6))
     ranges = [(i, min(n, i + per)) for i in range(0, n, per)]
+    from concurrent.futures import ProcessPoolExecutor
+    from concurrent.futures.process import BrokenProcessPool
     try:
-        with multiprocessing.get_context("fork").Pool(nproc) as pool:
-            res = pool.map(_call_range, ranges, chunksize=1)
+        with ProcessPoolExecutor(max_workers=nproc, mp_context=multiprocessing.get_context("fork")) as pool:
+            res = list(pool.map(_call_range, ranges))
+    except BrokenProcessPool as ex:
+        raise Machinery("a replay worker process died: %s" % ex)
     finally:
         _ITEMS = None
     return [x for r in res for x in r]
@@ -539,8 +545,10 @@ def _validate_shards(spec_dir, module, cfgp, traces, shards, scratch, timeout, v
     if len(jobs) == 1:
         res = [_validate_one(jobs[0])]
     else:
-        with multiprocessing.get_context("fork").Pool(len(jobs)) as pool:
-            res = pool.map(_validate_one, jobs)
+        # each job only waits for a TLC subprocess: threads suffice and cannot hang on a dead worker
+        from concurrent.futures import ThreadPoolExecutor
+        with ThreadPoolExecutor(max_workers=len(jobs)) as pool:
+            res = list(pool.map(_validate_one, jobs))
     accepted, at_all, inv_viol = set(), {}, {}
     for acc, at, inv in res:
         accepted |= acc
